@@ -639,7 +639,11 @@ func c09Body(c *ev.Ctx) {
 		}
 		var vmu sync.Mutex
 		runAll := func(seqs [][]httpReq) {
-			sem := make(chan struct{}, 8)
+			par := 8
+			if vsched.HasSharedState() {
+				par = 1 // the tree under check keeps package-level state: executions must not overlap in this process
+			}
+			sem := make(chan struct{}, par)
 			var wg sync.WaitGroup
 			for _, sq := range seqs {
 				if c.Expired() {
